@@ -143,6 +143,10 @@ type flakyStore struct {
 }
 
 func (f *flakyStore) Append(ctx context.Context, e *Event) (Offset, error) {
+	if e.Type == "eventbus.evB" {
+		// dead-letter events published by error handlers: always stored, not part of the scenario
+		return f.inner.Append(ctx, e)
+	}
 	i := f.calls
 	f.calls++
 	_, hasDeadline := ctx.Deadline()
@@ -176,3 +180,26 @@ func (f *flakyStore) LoadOffset(ctx context.Context, id string) (Offset, error) 
 func jsonUnmarshalOK(data []byte, v any) bool { return json.Unmarshal(data, v) == nil }
 
 func reflectTypeOf(x any) reflect.Type { return reflect.TypeOf(x) }
+
+// evDyn carries its type name in the value: two events of this Go type may have different names.
+type evDyn struct {
+	Name string `json:"name"`
+	N    int    `json:"n"`
+}
+
+func (e evDyn) EventTypeName() string { return e.Name }
+
+// evSelfBad encodes itself, and what it produces is not JSON.
+type evSelfBad struct{ N int }
+
+func (e evSelfBad) MarshalJSON() ([]byte, error) { return []byte(`{"n":`), nil }
+
+// ctxStore honours its context: an Append with a cancelled or expired context fails.
+type ctxStore struct{ *MemoryStore }
+
+func (s ctxStore) Append(ctx context.Context, e *Event) (Offset, error) {
+	if err := ctx.Err(); err != nil {
+		return "", err
+	}
+	return s.MemoryStore.Append(ctx, e)
+}
